@@ -17,7 +17,18 @@ Decided:
          frames) up to total 6 x all content lengths 0..9 x FRAGMENT_SIZE 1..4: pieces concatenate to the content
          (every byte exactly once, in order), at least one piece, exactly the last piece has message_finished=True,
          unchanged length => the original fragment lengths are kept.
-NOT decided: wsproto framing / permessage-deflate (library), real sockets.
+  R28.4  ("with or without permessage-deflate") finite evaluation of `WebsocketLayer.start` (its AST, on stubs that
+         implement the documented contract of the trusted wsproto library) over a set of `Sec-WebSocket-Extensions`
+         response headers (absent; permessage-deflate without / with one / with several parameters, any spacing around
+         ';'; unknown extensions before / after it): each of mitmproxy's two wsproto connections is created with
+         exactly one *own* PerMessageDeflate object per negotiated permessage-deflate entry, finalised exactly once with
+         EXACTLY the negotiated parameter list (so its compression context / window equals the peers'), none
+         otherwise; `client_ws` is the SERVER-role connection on `context.client`, `server_ws` the CLIENT-role one on
+         `context.server`.  A parameter that is lost, invented, or an extension object shared by both connections
+         makes a later compressed message undecodable for the receiving peer (close 1007): the recorded message is
+         never delivered.  The comparison is on the *parameters that arrive in the library*, not on how the header is
+         cut up: any spelling that hands the library the full entry passes.
+NOT decided: wsproto framing / the deflate codec itself (library), real sockets.
 """
 
 from __future__ import annotations
@@ -52,7 +63,9 @@ REG = {
     "claim": "each finished message is recorded once, hooked once, and (unless dropped) forwarded once to the other peer as the re-fragmented "
     "post-hook content with the right type; re-fragmentation covers the content exactly once, keeps original boundaries for unchanged "
     "length, finishes only the last fragment and never garbles multi-byte text; ping/pong relayed; close code/reason recorded from the event.",
-    "note": "wsproto and codecs (stdlib incremental decoder) are trusted libraries; loops unrolled once in the path analysis.",
+    "note": "wsproto and codecs (stdlib incremental decoder) are trusted libraries; loops unrolled once in the path analysis. R28.4 relies on "
+    "the library contract: split_comma_header splits at ',' and strips; PerMessageDeflate.finalize(offer) reads the parameters from the "
+    "';'-separated items AFTER the first one of the complete extension entry.",
 }
 
 WS = "mitmproxy/proxy/layers/websocket.py"
@@ -367,17 +380,216 @@ def check_r282(ctx, h):
         ctx.ok("R28.2", f"Fragmentizer (text): {n} cases with 2/3/4-byte characters across every cut: text arrives intact")
 
 
+# ---------------------------------------------------------------------------------------------------
+# R28.4: extension negotiation reaches both wsproto connections
+
+
+class _Unmodelled(Exception):
+    pass
+
+
+class _Opaque:
+    """result of a call the evaluation does not model; any attempt to *decide* something with it is fail-closed"""
+
+    def __init__(self, name):
+        self.name = name
+
+    def _no(self, *a, **k):
+        raise _Unmodelled(f"a decision depends on the unmodelled value {self.name}")
+
+    __bool__ = __eq__ = __ne__ = __iter__ = __len__ = __getitem__ = __contains__ = _no
+    __hash__ = object.__hash__
+
+    def __repr__(self):
+        return f"<opaque {self.name}>"
+
+
+class _PMD:
+    """wsproto.extensions.PerMessageDeflate, reduced to its contract: finalize(offer) reads the parameters from the
+    ';'-separated items after the first one (the extension name) of the complete extension entry."""
+
+    def __init__(self, *a, **k):
+        self.finalized = []
+
+    def finalize(self, offer):
+        if not isinstance(offer, str):
+            raise _Unmodelled(f"PerMessageDeflate.finalize is called with {offer!r}")
+        self.finalized.append([b.strip() for b in offer.split(";")][1:])
+
+
+class _Headers:
+    def __init__(self, fields):
+        self.fields = {k.lower(): v for k, v in fields.items()}
+
+    def get(self, key, default=None):
+        return self.fields.get(key.lower(), default)
+
+    def get_all(self, key):
+        return [self.fields[key.lower()]] if key.lower() in self.fields else []
+
+    def __getitem__(self, key):
+        return self.fields[key.lower()]
+
+    def __contains__(self, key):
+        return key.lower() in self.fields
+
+
+class _StartEval(Concrete):
+    SAFE_METHODS = Concrete.SAFE_METHODS | {"strip", "lstrip", "rstrip", "partition", "rpartition", "replace", "removeprefix", "removesuffix", "find", "casefold", "title"}
+
+    def expr(self, e, env):
+        if isinstance(e, ast.JoinedStr):  # real f-string semantics: the text may flow into finalize()
+            parts = []
+            for v in e.values:
+                if isinstance(v, ast.Constant):
+                    parts.append(str(v.value))
+                    continue
+                x = self.expr(v.value, env)
+                if isinstance(x, _Opaque) or v.format_spec is not None:
+                    return _Opaque(norm(e))
+                parts.append(repr(x) if v.conversion == ord("r") else str(x))
+            return "".join(parts)
+        try:
+            return Concrete.expr(self, e, env)
+        except AnalysisError as x:
+            if isinstance(e, ast.Call) and "outside the supported subset" in str(x):
+                return _Opaque(norm(e.func))
+            raise
+
+
+PMD_NAME = "permessage-deflate"
+EXT_HEADERS = [
+    None,
+    "permessage-deflate",
+    "permessage-deflate; server_no_context_takeover",
+    "permessage-deflate; client_no_context_takeover",
+    "permessage-deflate; server_max_window_bits=10",
+    "permessage-deflate; client_max_window_bits=9; server_no_context_takeover",
+    "permessage-deflate;client_no_context_takeover;server_no_context_takeover;server_max_window_bits=12",
+    "permessage-deflate ; server_max_window_bits=11 ; client_no_context_takeover",
+    "x-webkit-deflate-frame, permessage-deflate; server_no_context_takeover",
+    "permessage-deflate; client_no_context_takeover, x-unknown; q=1",
+    "x-unknown",
+]
+
+
+def negotiated(header):
+    """parameter lists of the permessage-deflate entries of a Sec-WebSocket-Extensions value (RFC 6455 s.9.1 / RFC 7692 grammar)"""
+    out = []
+    for entry in (header or "").split(","):
+        items = [b.strip() for b in entry.split(";")]
+        if items[0] == PMD_NAME:
+            out.append(items[1:])
+    return out
+
+
+def check_r284(ctx):
+    fn = ctx.func(WS, "WebsocketLayer.start")
+    where = (WS, "WebsocketLayer.start", fn)
+    params = [a.arg for a in fn.args.args]
+    ctx.require(len(params) == 2 and params[0] == "self", f"WebsocketLayer.start signature changed: {params}")
+    bad = {}
+    n = 0
+    for header in EXT_HEADERS:
+        want = negotiated(header)
+        conns = []
+        pmds = []
+
+        def make_pmd(*a, **k):
+            p = _PMD()
+            pmds.append(p)
+            return p
+
+        def make_conn(connection_type=None, extensions=None, trailing_data=b"", *, conn=None):
+            conns.append({"role": connection_type, "extensions": extensions, "conn": conn})
+            return ("ws", len(conns) - 1)
+
+        known = {
+            "self.flow.response": "response",
+            "self.flow.response.headers": _Headers({} if header is None else {"Sec-WebSocket-Extensions": header}),
+            "wsproto.extensions.PerMessageDeflate.name": PMD_NAME,
+            "PerMessageDeflate.name": PMD_NAME,
+            "self.context.client": "context.client",
+            "self.context.server": "context.server",
+        }
+        for pre in ("wsproto.ConnectionType.", "ConnectionType.", "wsproto.connection.ConnectionType."):
+            known[pre + "SERVER"] = "SERVER"
+            known[pre + "CLIENT"] = "CLIENT"
+
+        def resolve(name):
+            if name in known:
+                return known[name]
+            return _Opaque(name)
+
+        funcs = {
+            "wsproto.utilities.split_comma_header": lambda value: [piece.decode("ascii").strip() for piece in value.split(b",")],
+            "split_comma_header": lambda value: [piece.decode("ascii").strip() for piece in value.split(b",")],
+            "wsproto.extensions.PerMessageDeflate": make_pmd,
+            "PerMessageDeflate": make_pmd,
+            "WebsocketConnection": make_conn,
+            "commands.Log": lambda *a, **k: ("log",),
+            "WebsocketStartHook": lambda *a, **k: ("hook",),
+            "str": str,
+        }
+        attrs = {"flow": "flow"}
+        ev = _StartEval(resolve, attrs, funcs, max_steps=20000)
+        ev.trusted_types = (_PMD, _Headers)
+        try:
+            ev.call_gen(fn, "start-event")
+        except Raised as r:
+            raise AnalysisError(f"WebsocketLayer.start raises {r.name} for the response header Sec-WebSocket-Extensions: {header!r} (not modelled)")
+        except (_Unmodelled, TypeError, AttributeError, ValueError, KeyError) as x:
+            raise AnalysisError(f"WebsocketLayer.start: shape not modelled by the R28.4 evaluation ({type(x).__name__}: {x})")
+        n += 1
+        sides = {}
+        for name, role, conn in (("client_ws", "SERVER", "context.client"), ("server_ws", "CLIENT", "context.server")):
+            w = attrs.get(name)
+            if not (isinstance(w, tuple) and len(w) == 2 and w[0] == "ws"):
+                raise AnalysisError(f"WebsocketLayer.start does not bind self.{name} to a WebsocketConnection (got {w!r})")
+            c = conns[w[1]]
+            if isinstance(c["role"], _Opaque) or isinstance(c["conn"], _Opaque) or isinstance(c["extensions"], _Opaque):
+                raise AnalysisError(f"WebsocketLayer.start: arguments of self.{name} = WebsocketConnection(...) not modelled: {c}")
+            if c["role"] != role or c["conn"] != conn:
+                bad.setdefault(f"self.{name} must be the wsproto {role} endpoint on {conn}", (header, f"it is created as {c['role']} endpoint on {c['conn']}"))
+            exts = list(c["extensions"] or [])
+            if any(not isinstance(x, _PMD) for x in exts):
+                raise AnalysisError(f"WebsocketLayer.start: self.{name} gets extensions that are no PerMessageDeflate objects: {exts!r}")
+            sides[name] = exts
+            got = [x.finalized for x in exts]
+            if len(exts) != len(want):
+                bad.setdefault("one PerMessageDeflate per negotiated permessage-deflate entry on each connection, none otherwise",
+                               (header, f"self.{name} gets {len(exts)} deflate extension(s), the header negotiates {len(want)}"))
+            elif any(len(f) != 1 for f in got):
+                bad.setdefault("every PerMessageDeflate handed to a connection is finalised exactly once (an unfinalised extension stays disabled)",
+                               (header, f"self.{name}: finalize() was called {[len(f) for f in got]} times on its extension(s)"))
+            elif [f[0] for f in got] != want:
+                bad.setdefault("negotiated permessage-deflate parameters reach both wsproto connections",
+                               (header, f"self.{name} deflates with parameters {[f[0] for f in got]}, negotiated were {want} "
+                                        "(PerMessageDeflate.finalize(offer) skips the first ';'-item: it must get the complete extension entry)"))
+        if any(a is b for a in sides["client_ws"] for b in sides["server_ws"]):
+            bad.setdefault("the two connections use separate PerMessageDeflate objects (separate compression contexts)",
+                           (header, "the same extension object is handed to self.client_ws and self.server_ws"))
+    ctx.cells += n
+    for why, (header, what) in bad.items():
+        ctx.fail("R28.4", where, why, f"response header Sec-WebSocket-Extensions: {header!r}: {what}")
+    if not bad:
+        ctx.ok("R28.4", f"WebsocketLayer.start: {n} Sec-WebSocket-Extensions headers: both wsproto connections get their own PerMessageDeflate finalised with exactly the negotiated parameters; roles client_ws=SERVER/context.client, server_ws=CLIENT/context.server")
+
+
 def check(ctx):
     ctx.rule("R28.1", "relay_messages: record once, hook once, forward fragmentizer(message.content) once to the other peer unless dropped; ping/pong; close bookkeeping")
     ctx.rule("R28.2", "Fragmentizer never garbles multi-byte text (finite evaluation over every cut position and chunk size)")
     ctx.rule("R28.3", "Fragmentizer covers the content exactly once, finishes only the last fragment, keeps boundaries for unchanged length")
+    ctx.rule("R28.4", "permessage-deflate negotiation: both wsproto connections get their own extension finalised with exactly the negotiated parameters; connection roles")
     ctx.trust("wsproto events / framing; codecs incremental decoder (stdlib)")
+    ctx.trust("wsproto contract: split_comma_header(b) = stripped ','-pieces; PerMessageDeflate.finalize(offer) takes the complete extension entry and reads the parameters from its ';'-items after the first")
     check_r281(ctx)
     h = FragHarness(ctx)
     check_r282(ctx, h)
     check_r283(ctx, h)
+    check_r284(ctx)
     ctx.note(f"Fragmentizer AST interpreted for {h.steps} steps")
-    for rule, n in (("R28.1", 40), ("R28.2", 1), ("R28.3", 1)):
+    for rule, n in (("R28.1", 40), ("R28.2", 1), ("R28.3", 1), ("R28.4", 1)):
         if not any(f.rule == rule for f in ctx.findings):
             ctx.expect_instances(rule, n)
 
@@ -414,4 +626,12 @@ MUTANTS = [
     Mutant("close-code-constant", WS, "                self.flow.websocket.close_code = ws_event.code\n", "                self.flow.websocket.close_code = 1000\n", "R28.1"),
     Mutant("closed-by-client-inverted", WS, "                self.flow.websocket.closed_by_client = from_client\n", "                self.flow.websocket.closed_by_client = not from_client\n", "R28.1"),
     Mutant("close-keeps-relaying", WS, "                self.flow.live = False\n                self._handle_event = self.done\n", "                self.flow.live = False\n", "R28.1"),
+    # R28.4 (first = the essence of seed C28b: only the text after the first ';' reaches finalize(), which skips one more item)
+    Mutant("deflate-finalized-with-params-only", WS, "                ext_name = ext.split(\";\", 1)[0].strip()\n", "                ext_name, _, ext = ext.partition(\";\")\n                ext_name = ext_name.strip()\n", "R28.4"),
+    Mutant("deflate-finalized-with-name-only", WS, "                    server_deflate.finalize(ext)\n", "                    server_deflate.finalize(ext_name)\n", "R28.4"),
+    Mutant("server-side-deflate-never-finalized", WS, "                    server_deflate.finalize(ext)\n", "", "R28.4"),
+    Mutant("one-deflate-object-shared-by-both-connections", WS, "                    server_extensions.append(server_deflate)\n", "                    server_extensions.append(client_deflate)\n", "R28.4"),
+    Mutant("extension-name-not-stripped", WS, "                ext_name = ext.split(\";\", 1)[0].strip()\n", "                ext_name = ext.split(\";\", 1)[0]\n", "R28.4"),
+    Mutant("deflate-only-towards-the-client", WS, "wsproto.ConnectionType.CLIENT, server_extensions, conn=self.context.server", "wsproto.ConnectionType.CLIENT, [], conn=self.context.server", "R28.4"),
+    Mutant("connection-roles-swapped", WS, "wsproto.ConnectionType.SERVER, client_extensions, conn=self.context.client", "wsproto.ConnectionType.CLIENT, client_extensions, conn=self.context.client", "R28.4"),
 ]
